@@ -129,6 +129,9 @@ class OggFLACVComment(VCommentDict):
 
         # Set the new comment block.
         data = self.write(framing=False)
+        if len(data) > 0xFFFFFF:
+            # the block length field has 24 bits
+            raise error("comment block too large (%d bytes)" % len(data))
         data = packets[0][:1] + struct.pack(">I", len(data))[-3:] + data
         packets[0] = data
 
